@@ -210,7 +210,7 @@ ASM_HEADER = """
                 && (m_store(new_inst(old(self).out.code@, final(self).out.code@).mnemonic) || m_rmw(new_inst(old(self).out.code@, final(self).out.code@).mnemonic))), //@ C13,C01:no-store-to-a-constant
             // `(p),Y` exists for a pointer in page zero only
             emitted_one(old(self).out.code@, final(self).out.code@) ==> (kind_of_text(new_inst(old(self).out.code@, final(self).out.code@).dasm_operand@) is IndY ==> sym_zp(old(self), *operand)), //@ C13:indirect-pointer-in-zero-page
-            emitted_one(old(self).out.code@, final(self).out.code@) ==> new_inst(old(self).out.code@, final(self).out.code@).nb_bytes as nat == mode_len(assembler_mode(new_inst(old(self).out.code@, final(self).out.code@).mnemonic, kind_of_text(new_inst(old(self).out.code@, final(self).out.code@).dasm_operand@), sym_zp(old(self), *operand))), //@ C04,C03:nb
+            emitted_one(old(self).out.code@, final(self).out.code@) ==> new_inst(old(self).out.code@, final(self).out.code@).nb_bytes as nat == mode_len(assembler_mode(new_inst(old(self).out.code@, final(self).out.code@).mnemonic, kind_of_text(new_inst(old(self).out.code@, final(self).out.code@).dasm_operand@), sym_zp(old(self), *operand))), //@ C04,C03,C13:nb
             emitted_one(old(self).out.code@, final(self).out.code@) ==> (operand is Tmp ==> new_inst(old(self).out.code@, final(self).out.code@).dasm_operand@ == "cctmp"@), //@ C13:text-tmp
             emitted_one(old(self).out.code@, final(self).out.code@) ==> (operand is Label ==> new_inst(old(self).out.code@, final(self).out.code@).dasm_operand@ == operand->Label_0@), //@ C13:text-label
             emitted_one(old(self).out.code@, final(self).out.code@) ==> (operand is Nothing ==> new_inst(old(self).out.code@, final(self).out.code@).dasm_operand@.len() == 0), //@ C13:text-nothing
